@@ -129,6 +129,8 @@ def run_shard(args):
         stale = f"unreferenced {rng.randint(0, 999)}".encode()
         oh = hashlib.sha256(old_data).hexdigest()
         src += f"\n\ndef test_changed_external():\n    assert outsource('new data {rng.randint(0, 999)}') == snapshot(external('{oh[:12]}*.txt'))\n"
+        # values that are equal but written differently: each site gets the code of its own value in the first run
+        src += "\n\ndef test_equal_values_written_differently():\n    assert 0.0 == snapshot()\n    assert -0.0 == snapshot()\n    assert (1, True) == snapshot()\n    assert (1, 1) == snapshot()\n    assert [2.0, (0, False)] == snapshot([1])\n    assert [2, (0, 0)] == snapshot([1])\n"
         pfiles = {"test_a.py": src, f".inline-snapshot/external/{oh}.txt": old_data, f".inline-snapshot/external/{hashlib.sha256(stale).hexdigest()}.bin": stale}
         if (args.shard + c) % 4 == 3:
             # the first run changes the file without changing its size (the second session must not run a stale
